@@ -603,18 +603,19 @@ void ExpressionBuilder::expr_dot(const char* id)
         if (expr.get_kind() != IDENTIFIER) {
             throw IsNotAStructError(expr.str(true));
         }
-        // temporarily set the frame to that of its associated template
+        // the frame of its associated template
         const auto dynamicFrame = dynamicFrames.find(expr.get_symbol().get_name());
         if (dynamicFrame == dynamicFrames.end()) {
             throw UnknownIdentifierError(expr.get_symbol().get_name());
         }
-        push_frame(dynamicFrame->second.back());
-        const bool found = resolve(id, uid);
-        popFrame();  // Remove that frame again
-        if (!found) {
+        // a member is a declaration of the template itself, not one visible from it
+        const frame_t& frame = dynamicFrame->second.back();
+        const auto index = frame.get_index_of(id);
+        if (!index) {
             expr_false();
             throw UnknownIdentifierError(id);
         }
+        uid = frame[*index];
         expression_t identifier = expression_t::create_identifier(uid, position);
 
         expr = (expression_t::create_nary(
